@@ -576,6 +576,22 @@ func permute(ms []string, r *rt.Rand, max int, visit func([]string)) {
 
 var c12Suffixes = []string{" ", "x", " 1", "}", "]", ",", " {}", "\n\n", "\x00", `"`, ":", " null"}
 
+func init() {
+	docs := []string{`{"value":0,"unit":"B"}`, `0`, `"0B"`, `{"unit":"YiB","value":0}`, `{"x":[{"value":1}],"VALUE":3,"Unit":"KiB"}`, `"1 000 kB"`, `18446744073709551615`, `{"value":1}`, `[]`}
+	coldCases["C12"] = func(c *rt.Ctx, idx int) {
+		cfg := c12Cfg{rule: size.RuleEnableJSONStringForm | size.RuleEnableJSONObjectForm, maxKeys: []int{16, 0, 2}[idx%3]}
+		restore := c12Apply(cfg)
+		defer restore()
+		coldGeneric([]func(){
+			func() { _, _ = size.DefaultParser(`{"value":0,"unit":"B"}`, cfg.rule) },
+			func() { var s size.Size; _ = s.UnmarshalJSON([]byte(`0`)) },
+			func() { _, _ = size.DefaultParser(`{"unit":"ZB","value":0,"x":{}}`, cfg.rule) },
+			func() { _, _ = size.DefaultParser(`{"value":1}`, cfg.rule|size.RuleDisallowUnknownKeys) },
+			func() {},
+		}, func(w *rt.W, k int) { c12Case(w, docs[k], cfg) }, len(docs))(c, idx)
+	}
+}
+
 func runC12(c *rt.Ctx) {
 	c.SetRule("seeded AST-generated JSON documents: numbers (integers incl. 0, 2^64-1, 2^64; negatives; fractions; exponents), strings in and out of the text grammar with JSON escapes, true/false/null, arrays, objects with value/unit/unknown members (scalars and nested arrays/objects to depth 4 containing keys named value/unit), key-case variants, duplicates, type confusions, member counts at MaxObjectKeys-1/=/+1; " +
 		"every permutation of the members (<= 5 members; 12 shuffles above), every truncation point and a set of trailing suffixes of each document; x all 16 rule subsets x MaxObjectKeys in {0,1,2,3,16} (a small pool through the full 80-configuration cross, a large pool through 20 of them) x {string, []byte, Size.UnmarshalJSON}. " +
@@ -742,6 +758,47 @@ func runC12(c *rt.Ctx) {
 		})
 	}
 	c.Require("malformed-number-literal", 50)
+
+	// ignored members of any nesting depth, and numbers inside them that no float can hold
+	for _, cfg := range []c12Cfg{{rule: size.RuleEnableJSONStringForm | size.RuleEnableJSONObjectForm, maxKeys: 16}, {rule: size.RuleEnableJSONObjectForm, maxKeys: 0}} {
+		cfg := cfg
+		c12Apply(cfg)
+		c.Parallel("deep-ignored-members", 0, func(w *rt.W) {
+			depths := []int{1, 2, 3, 5, 8, 15, 16, 17, 23, 24, 25, 26, 31, 32, 33, 50, 63, 64, 65, 100, 127, 128, 129, 255, 256, 257, 500, 1000, 5000, 9999}
+			for di := w.Shard; di < len(depths); di += w.NShards {
+				n := depths[di]
+				for _, shape := range []func(int) string{
+					func(n int) string { return strings.Repeat("[", n) + strings.Repeat("]", n) },
+					func(n int) string { return strings.Repeat(`{"a":`, n) + "1" + strings.Repeat("}", n) },
+					func(n int) string {
+						return strings.Repeat(`[{"value":`, n/2+1) + `"unit"` + strings.Repeat("}]", n/2+1)
+					},
+					func(n int) string {
+						return strings.Repeat("[", n) + `{"unit":"EiB","value":9}` + strings.Repeat("]", n)
+					},
+				} {
+					deep := shape(n)
+					c12Case(w, `{"x":`+deep+`,"value":3,"unit":"KiB"}`, cfg)
+					c12Case(w, `{"value":3,"x":`+deep+`,"unit":"KiB"}`, cfg)
+					c12Case(w, `{"value":3,"unit":"KiB","x":`+deep+`}`, cfg)
+				}
+				w.ClassN("deep-ignored-member", 1)
+			}
+			if w.Shard == 0 {
+				for _, num := range []string{"1e400", "-1e999", "1E-400", "1e308", "1e309", "2e308", "-1.5e5000", "1" + strings.Repeat("0", 400), "0." + strings.Repeat("0", 400) + "1", "123456789012345678901234567890.5"} {
+					c12Case(w, `{"value":2,"unit":"MiB","ratio":`+num+`}`, cfg)
+					c12Case(w, `{"ratio":[`+num+`,{"r":`+num+`}],"value":2,"unit":"MiB"}`, cfg)
+					c12Case(w, `{"value":2,"ratio":{"value":`+num+`},"unit":"MiB"}`, cfg)
+					w.ClassN("ignored-number-beyond-float64", 1)
+				}
+			}
+		})
+	}
+	c.Require("deep-ignored-member", 25)
+	c.Require("ignored-number-beyond-float64", 10)
+
+	coldStart(c, "C12", 10)
+	c12Apply(c12Cfg{rule: size.DefaultRule, maxKeys: 16, limit: 0})
 
 	// the input limit in front of the JSON forms
 	for _, limit := range []int{128, 20, 1} {
